@@ -1,5 +1,13 @@
 // Command c17 is the fact extractor of property C17 (translator tie).
 //
+// A SITE is one (call expression, path-argument position) pair: a direct call
+// of a function of the table `callees` — the os / io/ioutil / path/filepath /
+// io/fs / os.Root / net/http.ServeFile / os/exec / renameio / bbolt / urlfilter
+// entry points that take a file name, directory or program path — found in a
+// function body of a non-test file.  Wrappers need no entry of their own: the
+// path of the site inside the wrapper is traced back through the wrapper's
+// parameter to every caller in the module.
+//
 // It lists every call in the AdGuard Home module (non-test files of
 // ./internal/... and the main package, GOOS=linux) that hands a path to the
 // file system (open/read, stat, directory listing, library open, exec, and the
@@ -91,20 +99,44 @@ type calleeSpec struct {
 }
 
 var callees = map[string][]calleeSpec{
-	"os.Open":               {{opOpen, 0}},
-	"os.OpenFile":           {{opOpen, 0}},
-	"os.ReadFile":           {{opOpen, 0}},
-	"io/ioutil.ReadFile":    {{opOpen, 0}},
-	"net/http.ServeFile":    {{opOpen, 2}},
-	"os.Stat":               {{opStat, 0}},
-	"os.Lstat":              {{opStat, 0}},
-	"os.Readlink":           {{opStat, 0}},
-	"os.ReadDir":            {{opList, 0}},
-	"io/ioutil.ReadDir":     {{opList, 0}},
-	"os.DirFS":              {{opList, 0}},
-	"path/filepath.Glob":    {{opList, 0}},
-	"path/filepath.Walk":    {{opList, 0}},
-	"path/filepath.WalkDir": {{opList, 0}},
+	"os.Open":            {{opOpen, 0}},
+	"os.OpenFile":        {{opOpen, 0}},
+	"os.ReadFile":        {{opOpen, 0}},
+	"io/ioutil.ReadFile": {{opOpen, 0}},
+	"net/http.ServeFile": {{opOpen, 2}},
+	// file-system abstractions: the name is relative to the FS / root value
+	"io/fs.ReadFile":            {{opOpen, 1}},
+	"io/fs.FS.Open":             {{opOpen, 0}},
+	"io/fs.ReadFileFS.ReadFile": {{opOpen, 0}},
+	"io/fs.Stat":                {{opStat, 1}},
+	"io/fs.StatFS.Stat":         {{opStat, 0}},
+	"io/fs.ReadDir":             {{opList, 1}},
+	"io/fs.ReadDirFS.ReadDir":   {{opList, 0}},
+	"io/fs.Glob":                {{opList, 1}},
+	"io/fs.GlobFS.Glob":         {{opList, 0}},
+	"io/fs.WalkDir":             {{opList, 1}},
+	"io/fs.Sub":                 {{opList, 1}},
+	"io/fs.SubFS.Sub":           {{opList, 0}},
+	"os.OpenRoot":               {{opList, 0}},
+	"os.OpenInRoot":             {{opOpen, 0}, {opOpen, 1}},
+	"os.CopyFS":                 {{opMutate, 0}},
+	"os.Root.Open":              {{opOpen, 0}},
+	"os.Root.OpenFile":          {{opOpen, 0}},
+	"os.Root.OpenRoot":          {{opList, 0}},
+	"os.Root.Stat":              {{opStat, 0}},
+	"os.Root.Lstat":             {{opStat, 0}},
+	"os.Root.Create":            {{opMutate, 0}},
+	"os.Root.Mkdir":             {{opMutate, 0}},
+	"os.Root.Remove":            {{opMutate, 0}},
+	"os.Stat":                   {{opStat, 0}},
+	"os.Lstat":                  {{opStat, 0}},
+	"os.Readlink":               {{opStat, 0}},
+	"os.ReadDir":                {{opList, 0}},
+	"io/ioutil.ReadDir":         {{opList, 0}},
+	"os.DirFS":                  {{opList, 0}},
+	"path/filepath.Glob":        {{opList, 0}},
+	"path/filepath.Walk":        {{opList, 0}},
+	"path/filepath.WalkDir":     {{opList, 0}},
 	"github.com/AdguardTeam/urlfilter/filterlist.NewFileRuleList": {{opLib, 1}},
 	"go.etcd.io/bbolt.Open":  {{opLib, 0}},
 	"os/exec.Command":        {{opExec, 0}},
